@@ -476,7 +476,11 @@ def run_case(ctx, navis, entry, spec_list, rng, as_list):
     build = (lambda: navis.NeuronList([s.build() for s in spec_list])) if as_list else spec_list[0].build
     x = build()
     first = x[0] if as_list else x
-    p = entry['gen'](first, rng)
+    try:
+        p = entry['gen'](first, rng)
+    except ValueError:      # e.g. an entry that needs a non-root node on a neuron made of isolated nodes
+        ctx.count('skipped:no-admissible-parameters')
+        return
     d = dict(op=entry['name'], neuron=[s.desc for s in spec_list], list=as_list, params={k: (v if isinstance(v, (int, float, str, bool, list)) else type(v).__name__) for k, v in p.items()})
     before = snap(x)
     st, r = guarded(entry['call'], x, p, False)
